@@ -10,7 +10,8 @@ import hist
 import progs as P
 import values as V
 
-COQ_FILES = ("L7_Graph/Structure.v", "L7_Graph/RunGraph.v", "L7_Graph/GraphProofs.v", "Properties/C18.v")
+COQ_FILES = ("L7_Graph/Structure.v", "L7_Graph/RunGraph.v", "L7_Graph/GraphProofs.v", "L7_Graph/AcyclicProofs.v", "Properties/C18.v", "Properties/C18b.v")
+PROPERTY_FILES = ("C18", "C18b")
 EXTRACTED = ("ConstHash", "ConstSig")
 ALLOWED_AXIOMS = ()
 
